@@ -651,3 +651,70 @@ def run_b16(chk, repo):
                                           '$SUBROUTINE ADVAN11 TRANS3 with none of its rate constants defined')
     if n < 20:
         raise AnalysisError('B16: table of new_advan_trans not evaluated')
+
+
+def run_b17(chk, repo):
+    """the PK parameters PREDPP reads for the selected (ADVAN, TRANS) are the ones update_needed_pk_parameters can define"""
+    import json
+    from sa.report import VERIF
+    from rules.C02 import eval_cond
+    B17 = chk.rule('B17', 'for every closed-form (ADVAN, TRANS) pair pharmpy selects, update_needed_pk_parameters names every '
+                          'PK parameter PREDPP reads for it (K excepted: it keeps its name in every ADVAN)', floor=10)
+    spec = json.loads((VERIF / 'specs/predpp.json').read_text())
+    um = repo.module(f'{NM}.update')
+    f = um.functions.get('update_needed_pk_parameters')
+    if f is None:
+        raise AnalysisError('update_needed_pk_parameters not found')
+    if not {'advan', 'trans'} <= set(f.all_params):
+        raise AnalysisError('update_needed_pk_parameters: parameters advan/trans not found')
+
+    def consts(node, env, out):
+        if isinstance(node, ast.Dict) and node.keys and all(isinstance(k, ast.Constant) for k in node.keys) \
+                and env['advan'] in [k.value for k in node.keys]:
+            for k, v in zip(node.keys, node.values):
+                if k.value == env['advan']:
+                    consts(v, env, out)
+            return
+        if isinstance(node, ast.Constant) and isinstance(node.value, str):
+            out.add(node.value)
+        for c in ast.iter_child_nodes(node):
+            consts(c, env, out)
+
+    def walk(stmts, env, out):
+        for s_ in stmts:
+            if isinstance(s_, ast.If):
+                v = eval_cond(s_.test, env)
+                if v is not False:
+                    if v is None:
+                        consts(s_.test, env, out)
+                    walk(s_.body, env, out)
+                if v is not True:
+                    walk(s_.orelse, env, out)
+            elif isinstance(s_, (ast.For, ast.While, ast.With, ast.Try)):
+                for fld in ('iter', 'test', 'items'):
+                    x = getattr(s_, fld, None)
+                    for y in (x if isinstance(x, list) else [x] if x is not None else []):
+                        consts(y, env, out)
+                for fld in ('body', 'orelse', 'finalbody'):
+                    walk(getattr(s_, fld, []) or [], env, out)
+                for h in getattr(s_, 'handlers', []):
+                    walk(h.body, env, out)
+            else:
+                consts(s_, env, out)
+    # TRANS values pharmpy itself selects for the closed-form ADVANs (B16 decides that no other is selected)
+    pairs = [(a, t) for a in ('ADVAN1', 'ADVAN2', 'ADVAN3', 'ADVAN4', 'ADVAN11', 'ADVAN12')
+             for t in ('TRANS1', 'TRANS2', 'TRANS4') if t in spec[a]]
+    for advan, trans in pairs:
+        env = {'advan': advan, 'trans': trans}
+        named = set()
+        walk(f.node.body, env, named)
+        need = [p for p in spec[advan][trans]['params'] if p != 'K']
+        missing = [p for p in need if p not in named]
+        chk.instance(B17, f'{advan} {trans}: reads {need}; named in the branch taken: {sorted(set(need) & named)}')
+        if missing:
+            chk.violation(B17, um.rel, f.qualname, f'{advan} {trans}: {", ".join(missing)} not defined',
+                          f'PREDPP reads {", ".join(missing)} for {advan} {trans}; no branch of update_needed_pk_parameters '
+                          f'taken for this pair can define them, so the generated $PK leaves them undefined',
+                          line=f.node.lineno,
+                          witness='a TRANS1 model (K, V) that gets a peripheral compartment: $SUBROUTINE ADVAN3 TRANS1 with '
+                                  'KCP1/KPC1 defined but not K12/K21 (findings/C02_trans1_peripheral_rates_demo.py)')
